@@ -14,6 +14,9 @@ import time
 
 VERIF = os.path.dirname(os.path.dirname(os.path.abspath(__file__)))
 RUNDIR = os.path.join(VERIF, ".build", "run")
+# evidence and replay files belong to /repo itself; runs against a scratch copy (VERIF_REPO, used by the
+# self-tests) write theirs under .build/scratch so that the committed evidence is never overwritten
+OUT = VERIF if os.environ.get("VERIF_REPO", "/repo") == "/repo" else os.path.join(VERIF, ".build", "scratch")
 PROGRESS_SIZE = 32 + 128
 
 
@@ -315,7 +318,7 @@ def ddmin(ops, test, budget=400):
 
 def clean_replays(prop):
     """replay files are outputs of the current run only"""
-    d = os.path.join(VERIF, "replays", prop)
+    d = os.path.join(OUT, "replays", prop)
     try:
         for f in os.listdir(d):
             os.unlink(os.path.join(d, f))
@@ -332,7 +335,7 @@ def load_known_findings():
 
 
 def write_evidence(prop, ev):
-    d = os.path.join(VERIF, "evidence")
+    d = os.path.join(OUT, "evidence")
     os.makedirs(d, exist_ok=True)
     tmp = os.path.join(d, prop + ".json.tmp")
     with open(tmp, "w") as f:
@@ -384,7 +387,7 @@ def process_candidates(prop, engine, binary, cands, get_plan, env=None, header=N
         if final["sig"] != sig:
             small = plan
             final = r1
-        rdir = os.path.join(VERIF, "replays", prop)
+        rdir = os.path.join(OUT, "replays", prop)
         os.makedirs(rdir, exist_ok=True)
         safe = "".join(ch if ch.isalnum() or ch in "-_." else "_" for ch in sig)[:100]
         path = os.path.join(rdir, "%s-run%s.json" % (safe, c["run"]))
